@@ -3,6 +3,7 @@
    reasons, client disconnect, TerminateStream(403), timers, wake-ups; attempt indices unrestricted), the predicate holds.
    Discharged by exhaustive reachability (Proofs/ProxyReach.v) + vm_compute. *)
 From Coq Require Import List ZArith Bool Arith Lia.
+From MV Require Import Model.ProxyBuiltin.
 From MV Require Import Model.Proxy Model.ProxySpec Proofs.ProxyReach.
 Import ListNotations.
 Open Scope Z_scope.
@@ -218,5 +219,23 @@ Definition fam_send_hijack : list cfg :=
     mk false false false RouteForward 2 true 0 [] false 0 [{| f_phase := 0; f_code := 403; f_verdicts := [] |}]
        [{| sf_code := 400; sf_verdicts := [sv; VContinue] |}] pool)
     [[]; [PoolOk; PoolConnFail]; [PoolOk; PoolOverflow]]) [VContinue; VHijack; VDirect; VStop].
+
+(* chains of the built-in deny filters (Model/ProxyBuiltin.v): ip_access (BeforeRoute, 403), payload_limit (AfterRoute, limit 10,
+   413), fault_inject (AfterRoute, 503, for requests carrying x-fault) - every combination of their decisions, reached through
+   requests without body / under / over the limit, with / without the fault header, from a listed / unlisted address, on a route
+   without per-route configuration and on one that overrides the limit (1000); and the payload_limit filter alone *)
+Definition bl_all : lcfg :=
+  {| l_ip := Some {| ip_entries := [IpDeny]; ip_default_deny := false |};
+     l_pl := Some {| pl_max := 10; pl_status := 413 |};
+     l_fi := Some {| fi_status := 503; fi_always := true; fi_upstream := None; fi_hdr := true |} |}.
+Definition bl_pl : lcfg := {| l_ip := None; l_pl := Some {| pl_max := 10; pl_status := 413 |}; l_fi := None |}.
+Definition b_routes : list rcfg :=
+  [{| r_cluster := 0; r_pl := None; r_fi := None |}; {| r_cluster := 0; r_pl := Some {| pl_max := 1000; pl_status := 413 |}; r_fi := None |}].
+Definition b_reqs : list breq :=
+  flat_map (fun m => flat_map (fun body => map (fun h => {| q_body := body; q_fault_hdr := h; q_member := [Some m] |}) [false; true])
+                              [None; Some 5; Some 20]) [false; true].
+Definition fam_builtin : list cfg :=
+  flat_map (fun r => map (fun q => builtin_cfg bl_all r q) b_reqs) b_routes ++
+  flat_map (fun r => map (fun body => builtin_cfg bl_pl r {| q_body := body; q_fault_hdr := false; q_member := [] |}) [None; Some 5; Some 20]) b_routes.
 
 Definition chunkn (n k : nat) (l : list cfg) : list cfg := firstn n (skipn (n * k) l).
